@@ -97,6 +97,98 @@ theorem cos_replay_rejected (seq txSeq : Nat) (c i : Bool) (s' : Nat) (h : cosAc
     simp [this]
   · cases h
 
+/-! ### both routes and everything else that rewrites the account -/
+
+/-- the other rewrites of the account keep its sequence (what every non-transaction code path that stores an account
+    must do: conversion into a vesting account, clawback, upgrade handlers) -/
+def KeepsSequence : Nat → List Ev → Prop
+  | _, [] => True
+  | seq, .eth ns :: rest =>
+    (match ethAccept seq ns with
+     | some s' => KeepsSequence s' rest
+     | none => KeepsSequence seq rest)
+  | seq, .cos t c i :: rest =>
+    (match cosAccept seq t c i with
+     | some s' => KeepsSequence s' rest
+     | none => KeepsSequence seq rest)
+  | seq, .other n :: rest => seq ≤ n ∧ KeepsSequence n rest
+
+theorem runMixed_spec (evs : List Ev) : ∀ seq, KeepsSequence seq evs →
+    seq ≤ (runMixed seq evs).1 ∧ (∀ x ∈ (runMixed seq evs).2, seq ≤ x ∧ x < (runMixed seq evs).1) ∧
+    (runMixed seq evs).2.Nodup := by
+  induction evs with
+  | nil => intro seq _; simp [runMixed]
+  | cons e rest ih =>
+    intro seq hk
+    cases e with
+    | eth ns =>
+      simp only [runMixed, KeepsSequence] at hk ⊢
+      cases h : ethAccept seq ns with
+      | none => rw [h] at hk; exact ih seq hk
+      | some s' =>
+        rw [h] at hk
+        obtain ⟨h1, h2⟩ := (ethAccept_iff ns seq s').mp h
+        obtain ⟨i1, i2, i3⟩ := ih s' hk
+        simp only
+        refine ⟨by omega, ?_, ?_⟩
+        · intro x hx
+          rcases List.mem_append.mp hx with hx | hx
+          · rw [h1] at hx
+            have := List.mem_range'_1.mp hx
+            omega
+          · have := i2 x hx; omega
+        · rw [List.nodup_append]
+          refine ⟨by rw [h1]; exact List.nodup_range', i3, ?_⟩
+          intro a ha b hb hab
+          rw [h1] at ha
+          have h3 := List.mem_range'_1.mp ha
+          have h4 := i2 b hb
+          omega
+    | cos t c i =>
+      simp only [runMixed, KeepsSequence] at hk ⊢
+      cases h : cosAccept seq t c i with
+      | none => rw [h] at hk; exact ih seq hk
+      | some s' =>
+        rw [h] at hk
+        have hs : t = seq ∧ s' = seq + 1 := by
+          unfold cosAccept at h
+          split at h
+          · rename_i hc; injection h with h; exact ⟨hc.1, h.symm⟩
+          · cases h
+        obtain ⟨i1, i2, i3⟩ := ih s' hk
+        simp only
+        refine ⟨by omega, ?_, ?_⟩
+        · intro x hx
+          rcases List.mem_cons.mp hx with hx | hx
+          · omega
+          · have := i2 x hx; omega
+        · rw [List.nodup_cons]
+          refine ⟨?_, i3⟩
+          intro hm
+          have := i2 t hm
+          omega
+    | other n =>
+      simp only [runMixed, KeepsSequence] at hk ⊢
+      obtain ⟨i1, i2, i3⟩ := ih n hk.2
+      refine ⟨by omega, ?_, i3⟩
+      intro x hx
+      have := i2 x hx
+      omega
+
+/-- **no sequence number is ever used twice**, over any history of transactions of both routes (valid, replayed, out of
+    order, batched, tampered, for another chain) interleaved with other rewrites of the account — provided those keep
+    the sequence -/
+theorem sequence_numbers_used_once (seq : Nat) (evs : List Ev) (h : KeepsSequence seq evs) :
+    (runMixed seq evs).2.Nodup := (runMixed_spec evs seq h).2.2
+
+/-- … and the proviso is needed: a rewrite that resets the sequence makes an old signed transaction valid again -/
+theorem sequence_reset_counterexample :
+    (runMixed 0 [.eth [0], .eth [0], .other 0, .eth [0]]).2 = [0, 0] ∧
+    ¬ KeepsSequence 0 [.eth [0], .eth [0], .other 0, .eth [0]] := by
+  refine ⟨by decide, ?_⟩
+  intro h
+  simp [KeepsSequence, ethAccept] at h
+
 /-! ### binding of the signature to the content (cryptography assumed, explicitly) -/
 
 section Binding
